@@ -550,6 +550,11 @@ def replay(check, path):
         return EXIT_HARNESS
     hit = [f for f in r["failures"] if f["oracle"] == rp["oracle"]]
     if hit:
+        kf = match_known(load_known_findings(check.prop), hit[0], rp["record"])
+        if kf is not None:
+            # the replayed history now falls under a committed known finding (matched by site, as in a normal run)
+            print(f"KNOWN-FINDING: property={check.prop} {kf['id']}: {kf['what']}")
+            return EXIT_OK
         same = (r.get("digest") == rp.get("digest")) or rp.get("digest") is None
         print(f"VIOLATION property={check.prop} replay={path}")
         print(f"  oracle={hit[0]['oracle']}: {hit[0]['msg']}")
